@@ -819,6 +819,7 @@ pub fn parse(input: &str) -> Spec {
     // The first definite error is remembered but only returned once the rest of the input is
     // known not to contain an unspecified construct.
     let mut first_reject: Option<Reject> = None;
+    let mut quoted_numeric = false;
     while i < items.len() {
         let item = &items[i];
         i += 1;
@@ -881,8 +882,11 @@ pub fn parse(input: &str) -> Spec {
                 Some(Item::Quoted(w)) => (w.as_str(), true),
             };
             i += 1;
+            // whether a quoted numeric / type-list argument is acceptable at all is left open, but
+            // it can never denote anything else than its text: text outside the argument language
+            // is an error, text inside it is either refused or read as written
             if arg.1 && !matches!(kind, K::Str | K::Perm | K::Format) {
-                return Spec::Unspecified("quoted numeric or type-list argument");
+                quoted_numeric = true;
             }
             match parse_arg(*kind, arg.0) {
                 ArgRes::Ok(v) => vals.push(v),
@@ -909,7 +913,7 @@ pub fn parse(input: &str) -> Spec {
     }
     // options: last occurrence wins, wherever it stands
     let mut opts = Opts::default();
-    let mut may_reject = false;
+    let mut may_reject = quoted_numeric;
     for l in &lexed {
         if let Lexed::Global(g) = l {
             match g {
@@ -940,6 +944,7 @@ pub fn parse(input: &str) -> Spec {
         // empty / blank / options-only input means -true
         return Spec::Accept { opts, tree: Expr::Test(Test::True), may_reject };
     }
+    let _ = quoted_numeric;
     match grammar::parse(&toks) {
         Some(tree) => Spec::Accept { opts, tree, may_reject },
         None => {
